@@ -10,7 +10,7 @@ from .. import world as W
 from ..colalg import Col, T
 from ..interp import Obj, Unsupported
 from ..primaries import default_init, primary_classes, simulate_facts
-from ..report import AnalysisError, Finding
+from ..report import AnalysisError, Finding, single
 from ..term import Op, Sym, walk
 
 DERIVATIVES = ["european.EuropeanOption", "lookback.LookbackOption", "european_binary.EuropeanBinaryOption", "american_binary.AmericanBinaryOption",
@@ -158,7 +158,7 @@ def forward_start_index_hazard(ctx, run, rule):
     if si is None:
         raise AnalysisError("anchor vanished: EuropeanForwardStartOption._start_index")
     dd = Obj("pfhedge.instruments.derivative.cliquet.EuropeanForwardStartOption", "deriv")
-    val = [r for r in interp.explore(si, [], {}, self_obj=dd) if not r["raises"]][0]["value"]
+    val = single(interp.explore(si, [], {}, self_obj=dd))["value"]
     hazard = any(isinstance(s, Op) and s.op in ("py_floor", "py_ceil") for s in walk(val)) and not rounding_guarded(val)
     run.oblige(rule, "EuropeanForwardStartOption._start_index", not hazard, str(val))
     if hazard:
@@ -171,7 +171,7 @@ def time_to_maturity_rule(ctx, run):
     for mode, ts in (("step", W.integer("i")), ("batch", None)):
         d = W.option()
         fi = prog.lookup_method(d.cls, "time_to_maturity")
-        val = [r for r in interp.explore(fi, [ts], {}, self_obj=d) if not r["raises"]][0]["value"]
+        val = single(interp.explore(fi, [ts], {}, self_obj=d))["value"]
         C = Col()
         i = C.scalar(W.integer("i"))
         try:
